@@ -6,6 +6,7 @@ Require Import SC3.lib.PyNum SC3.gen.Gen_builtins SC3.gen.Gen_builtinsR.
 Require Import SC3.proofs.C15_kernels SC3.proofs.C15_real SC3.proofs.C15_general SC3.proofs.C15_clip.
 Require Import SC3.model.ListAlg SC3.model.Lift SC3.proofs.C15_lift.
 Require Import SC3.gen.Gen_maps SC3.proofs.C15_lift_maps.   (* lifting half, round 6: linlin regenerated per clip mode *)
+Require Import SC3.proofs.C15_lift_bigstep.   (* lifting half: big-step homomorphism for the lazy kinds *)
 
 (* --- range laws, float arguments --------------------------------------- *)
 Theorem mod_nonneg_float : forall a b : Q, (0 < b)%Q ->
@@ -592,6 +593,50 @@ Example optional_mode_example :
 Proof. vm_compute. reflexivity. Qed.
 
 Print Assumptions linlin_clip_modes.
+
+(* --- BIG-STEP homomorphism for the LAZY operand kinds (numbers, functions, streams, patterns), any mixing and nesting ---
+   needs:  Require Import SC3.proofs.C15_lift_bigstep.
+   ldenb d: the deep evaluation d consists of numbers, called functions (DCall) and exhausted streams / patterns (DStr) only,
+   nested at will (functions returning streams, streams of functions, ...).  sem / sem1: op lifted over two / one such
+   denotations (the left operand's outer layer wins; DCall unwraps both; two DStr zip to the shortest; a DStr against a
+   non-stream maps).  Whenever the deep evaluations of the operands succeed, the deep evaluation of the composite, with any
+   larger fuel, is op lifted over them.  Sequences (list / tuple / ChannelList) and Operand / Rest layers are NOT covered here:
+   for them the law is proved per kind and per evaluation step (lift_binop_hom_step, wrap laws, operand_binop_hom). *)
+Theorem lift_binop_hom_bigstep_lazy :
+  forall (env : nat -> num) (fx : bool) (g : Lift.op2), fst g = Lift.SPy ->
+  forall (a b : Lift.obj) (n m : nat),
+  C15_lift_bigstep.ldenb (Lift.eval_f env fx n a) = true ->
+  C15_lift_bigstep.ldenb (Lift.eval_f env fx m b) = true ->
+  exists N : nat, forall k : nat, (N <= k)%nat ->
+    Lift.eval_f env fx k (Lift.apply_binop g a b)
+    = C15_lift_bigstep.sem g (Lift.eval_f env fx n a) (Lift.eval_f env fx m b).
+Proof. exact C15_lift_bigstep.lift_binop_hom_bigstep. Qed.
+Theorem lift_unop_hom_bigstep_lazy :
+  forall (env : nat -> num) (fx : bool) (g1 : Lift.op1), fst g1 = Lift.SPy ->
+  forall (a : Lift.obj) (n : nat),
+  C15_lift_bigstep.ldenb (Lift.eval_f env fx n a) = true ->
+  exists N : nat, forall k : nat, (N <= k)%nat ->
+    Lift.eval_f env fx k (Lift.apply_unop g1 a) = C15_lift_bigstep.sem1 g1 (Lift.eval_f env fx n a).
+Proof. exact C15_lift_bigstep.lift_unop_hom_bigstep. Qed.
+
+(* routine [1, 2] minus (f + Pseq([5, 6, 7])) with f = 10: a stream against a function returning a stream;
+   the hypotheses hold and the evaluation computes: a stream of functions returning [1 - 15, 1 - 16, 1 - 17] etc. *)
+Example bigstep_lazy_example :
+  let env := fun _ : nat => I 10 in
+  let g : Lift.op2 := (Lift.SPy, nsub) in
+  let a := Lift.OStr (cons (I 1) (cons (I 2) nil)) in
+  let b := Lift.OBinFn (Lift.SPy, nadd) (Lift.OFn 0) (Lift.OPat (cons (I 5) (cons (I 6) (cons (I 7) nil)))) in
+  C15_lift_bigstep.ldenb (Lift.eval_f env true 6 a) = true
+  /\ C15_lift_bigstep.ldenb (Lift.eval_f env true 6 b) = true
+  /\ Lift.eval_f env true 9 (Lift.apply_binop g a b)
+     = C15_lift_bigstep.sem g (Lift.eval_f env true 6 a) (Lift.eval_f env true 6 b)
+  /\ Lift.eval_f env true 9 (Lift.apply_binop g a b)
+     = Lift.DStr (cons (Lift.DCall (Lift.DStr (cons (Lift.DNum (I (-14))) (cons (Lift.DNum (I (-15))) (cons (Lift.DNum (I (-16))) nil)))))
+                 (cons (Lift.DCall (Lift.DStr (cons (Lift.DNum (I (-13))) (cons (Lift.DNum (I (-14))) (cons (Lift.DNum (I (-15))) nil))))) nil)).
+Proof. vm_compute. repeat split; reflexivity. Qed.
+
+Print Assumptions lift_binop_hom_bigstep_lazy.
+Print Assumptions lift_unop_hom_bigstep_lazy.
 
 (* non-vacuity: the hypotheses are met by concrete arguments and the kernels compute *)
 Example wrap_example : canon (py_wrap (F (7 # 2)) (F (1 # 2)) (F (5 # 2))) = (1, 3, 2)%Z.
